@@ -25,5 +25,8 @@ rm -f "$OUT"
   GDSL_FACTS_OUT=$OUT \
   CARGO_TARGET_DIR=$TGT \
   cargo +nightly check --offline --lib "$@" >"$WORK/facts-cargo.log" 2>&1 || { echo "facts: cargo check failed" >&2; tail -40 "$WORK/facts-cargo.log" >&2; exit 2; }
+  # the metadata of exactly this tree, for witnesses and probes (copied under the lock)
+  RM=$(ls -t "$TGT"/debug/deps/libgdsl-*.rmeta 2>/dev/null | head -1)
+  [ -n "$RM" ] && mkdir -p "${OUT%.json}.d" && cp "$RM" "${OUT%.json}.d/libgdsl.rmeta"
 ) 9>"$WORK/facts.lock"
 [ -s "$OUT" ] || { echo "facts: no fact file produced" >&2; tail -20 "$WORK/facts-cargo.log" >&2; exit 2; }
